@@ -246,11 +246,18 @@ def r12_2(ctx):
                 touching = True  # an entry is fetched (to be completed) or stored
             if isinstance(q, (_ast.Assign, _ast.AugAssign)) and any(t is n for t in (q.targets if isinstance(q, _ast.Assign) else [q.target])):
                 touching = True
+            # entries fetched in bulk (items / values / get) in a function that also completes or cancels a future
+            if isinstance(q, _ast.Attribute) and q.value is n and q.attr in ("items", "values", "get") and any(
+                    isinstance(c, _ast.Call) and isinstance(c.func, _ast.Attribute) and c.func.attr in ("set_result", "set_exception", "cancel")
+                    for c in _ast.walk(g.node)):
+                touching = True
         if not touching:
             ctx.ok(1)
             continue
         ctx.require(g.short in ("ControllerApplication.__init__", "ControllerApplication._handle_frame_sent") or g.qual in _visited_send(ctx),
-                    f"_pending:user:{g.short}", f"pending table used in {g.short}", func=g, node=n)
+                    f"_pending:user:{g.short}", f"entries of the pending table are added, fetched, completed or removed in {g.short}, outside "
+                    "send_packet (registration) and _handle_frame_sent (completion by the matching confirmation): a request could then be completed "
+                    "by something other than its own delivery confirmation", func=g, node=n)
     # the set-up wrappers are called only from functions explored above (send_packet and the helpers it is split into)
     f0, paths0, px0 = explore_send_packet(ctx, "NWK", ("OK",), confirm, ext=True, sr=[1], want_px=True)
     for name in ("set_extended_timeout", "set_source_route"):
